@@ -80,7 +80,7 @@ func runC06(c *Ctx) Result {
 		for i := range kept {
 			k := &kept[i]
 			if cur := k.get(); !bytes.Equal(cur, k.snap) {
-				return "returned-data-changed:" + strings.SplitN(k.what, " ", 2)[0], fmt.Sprintf("result #%d (%s) changed after %s: was %q, now %q", i, k.what, after, clip(string(k.snap), 80), clip(string(cur), 80))
+				return "returned-data-changed:" + strings.SplitN(strings.SplitN(k.what, " ", 2)[0], "(", 2)[0],fmt.Sprintf("result #%d (%s) changed after %s: was %q, now %q", i, k.what, after, clip(string(k.snap), 80), clip(string(cur), 80))
 			}
 		}
 		return "", ""
